@@ -21,4 +21,5 @@ def build(u):
     u.item(h, "PaymentState", "struct", extra_attr="pub")
     u.spec("paystate.rs")
     u.impl(h, "PaymentState", ["new", "add_htlc", "fail", "resolve"], "htlc_manager")
+    u.auto_here(h, "htlc_manager")
     u.raw("}\n} // verus!\nfn main() {}\n")
